@@ -363,6 +363,14 @@ _EMPTY = {"fr": [], "lab": [], "yr": [], "bal": [], "ins": [], "outs": [], "intr
 def do_job(job):
     """perform all runs of a job and assemble the trace"""
     try:
+        if job.get("kind") == "sheet":
+            from . import odsio
+
+            return odsio.do_sheet_job(job, _state)
+        if job.get("kind") == "cli":
+            from . import cli
+
+            return cli.do_cli_job(job, _state)
         return _do_job(job)
     except common.MachineryError as exc:
         return {"error": str(exc), "job": job}
